@@ -120,3 +120,25 @@ package keeper
 //@   ensures[C18.fxg.commission]  defined(res_GetAllValidatorAccumulatedCommissions_0)
 //@   ensures[C18.fxg.outstanding] defined(res_GetAllValidatorOutstandingRewards_0)
 //@   ensures[C18.fxg.stakers]     defined(res_GetAllStakerRewards_0)
+
+// C17 (every booked claim is read back from where it was booked): each record of the module is read and written under
+// the key that ITS key builder makes for the validator / staker at hand; the community pool under the pool's key.
+//@ func (Keeper).GetValidatorOutstandingRewards
+//@   flag pure=GetValidatorOutstandingRewardsKey
+//@   flag noframe
+//@   before[C17.gvor.key] KVStore.Get requires defined(res_GetValidatorOutstandingRewardsKey_0) && arg0 == res_GetValidatorOutstandingRewardsKey_0
+//@ func (Keeper).SetValidatorOutstandingRewards
+//@   flag pure=GetValidatorOutstandingRewardsKey
+//@   flag noframe
+//@   before[C17.svor.key] KVStore.Set requires defined(res_GetValidatorOutstandingRewardsKey_0) && arg0 == res_GetValidatorOutstandingRewardsKey_0 && arg1 == res_MustMarshal_0
+//@ func (Keeper).GetStakerRewards
+//@   flag pure=GetStakerOutstandingRewardsKey
+//@   flag noframe
+//@   before[C17.gsr.key] KVStore.Get requires defined(res_GetStakerOutstandingRewardsKey_0) && arg0 == res_GetStakerOutstandingRewardsKey_0
+//@ func (Keeper).SetStakerRewards
+//@   flag pure=GetStakerOutstandingRewardsKey
+//@   flag noframe
+//@   before[C17.ssr.key] KVStore.Set requires defined(res_GetStakerOutstandingRewardsKey_0) && arg0 == res_GetStakerOutstandingRewardsKey_0 && arg1 == res_MustMarshal_0
+//@ func (Keeper).SetFeePool
+//@   flag noframe
+//@   before[C17.sfp.key] KVStore.Set requires arg0 == g("x/feedistribution/types.FeePoolKey") && arg1 == res_MustMarshal_0
